@@ -2,6 +2,7 @@
 package basecheck
 
 import (
+	"bytes"
 	"context"
 	"fmt"
 	"sort"
@@ -50,6 +51,8 @@ type ReqCase struct {
 	Msg       string   `json:"msg"`
 	N         int64    `json:"n"`
 	WithInner bool     `json:"with_inner"`
+	BufMode   int      `json:"buf_mode"` // DoInto capacity: 0 total+rel, 1 rel mod (total+8), 2 len(base)+rel
+	BufRel    int      `json:"buf_rel"`
 }
 
 var (
@@ -143,8 +146,38 @@ func checkReq(c *pbt.Ctx, cs ReqCase) {
 		c.Failf("wrong-fields", "output differs (want vs got): %s\ndocument %s, ctx base %+v, opts enable=%v wr=%v, field declared %q", d, doc, cs.Base, cs.Enable, cs.WR, cs.Req)
 		return
 	}
+	// DoInto with a capacity around the output size / the base's size: same bytes, nothing written past the capacity
+	capacity := len(out) + cs.BufRel
+	switch cs.BufMode {
+	case 1:
+		capacity = ((cs.BufRel % (len(out) + 8)) + len(out) + 8) % (len(out) + 8)
+	case 2:
+		if cs.Base != nil {
+			capacity = len(tm.EncodeValue(baseValue(cs.Base))) + cs.BufRel
+		}
+	}
+	if capacity < 0 {
+		capacity = 0
+	}
+	buf, guard := pbt.GuardedBuf(capacity)
+	c.Step("j2t.DoInto cap=%d (output %d bytes)", capacity, len(out))
+	var err2 error
+	if !c.Protect("", func() { err2 = cv.DoInto(ctx, desc, []byte(doc), &buf) }) {
+		return
+	}
+	if g := guard(buf); g != "" {
+		c.Failf("buffer-overflow", "DoInto(cap=%d): %s", capacity, g)
+		return
+	}
+	if err2 != nil || !bytes.Equal(buf, out) {
+		c.Failf("dointo-differs", "DoInto(cap=%d): err=%v, output differs from Do's\n got  %x\n want %x\ndocument %s", capacity, err2, buf, out, doc)
+		return
+	}
 	if cs.Enable && cs.Base != nil {
 		c.NonTrivial()
+		if capacity < len(out) {
+			c.Class("dointo:cap<output")
+		}
 	}
 }
 
@@ -169,12 +202,17 @@ func genBase(t *rapid.T) *BaseVal {
 func ReqProp(name string) pbt.Prop[ReqCase] {
 	return pbt.Prop[ReqCase]{
 		Name: name,
-		Rule: "request struct with a root-level base.Base field (declared default / required / optional) parsed with EnableThriftBase, and a nested struct that also has a base.Base field; the base is supplied through the context (or not) x conv EnableThriftBase x WriteRequireField; expected: the root base field is the context's base exactly (all four strings, TrafficEnv and Extra iff set), an empty base only when required and WriteRequireField, absent otherwise; the nested base comes from the JSON like any field; non-trivial = base supplied and option on",
+		Rule: "request struct with a root-level base.Base field (declared default / required / optional) parsed with EnableThriftBase, and a nested struct that also has a base.Base field; the base is supplied through the context (or not) x conv EnableThriftBase x WriteRequireField x DoInto with a capacity around the output size and around the base's size (same bytes, nothing written past the capacity); expected: the root base field is the context's base exactly (all four strings, TrafficEnv and Extra iff set), an empty base only when required and WriteRequireField, absent otherwise; the nested base comes from the JSON like any field; non-trivial = base supplied and option on",
 		Gen: func(t *rapid.T) ReqCase {
 			cs := ReqCase{Req: []string{"", "required ", "optional "}[rapid.IntRange(0, 2).Draw(t, "req")], Enable: rapid.IntRange(0, 3).Draw(t, "enable") != 0,
 				WR: rapid.Bool().Draw(t, "wr"), Msg: safe[rapid.IntRange(0, len(safe)-1).Draw(t, "msg")], N: tm.GenInt(t, tm.I64), WithInner: rapid.Bool().Draw(t, "inner")}
 			if rapid.IntRange(0, 3).Draw(t, "hasBase") != 0 {
 				cs.Base = genBase(t)
+			}
+			cs.BufMode = []int{0, 0, 1, 2}[rapid.IntRange(0, 3).Draw(t, "bufMode")]
+			cs.BufRel = rapid.IntRange(-8, 4).Draw(t, "bufRel")
+			if cs.BufMode == 1 {
+				cs.BufRel = rapid.IntRange(0, 400).Draw(t, "bufAbs")
 			}
 			return cs
 		},
